@@ -543,8 +543,11 @@ func (s *Subscription) removeReference(rid string) {
 	ref := s.refs[rid]
 	ref.count--
 	if ref.count == 0 {
-		s.c.Unsubscribe(ref.sub, false, s.IsSent(), 1, true)
+		// Remove the reference before unsubscribing, as the traversal made
+		// when trying to delete the referenced subscription must no longer
+		// follow it.
 		delete(s.refs, rid)
+		s.c.Unsubscribe(ref.sub, false, s.IsSent(), 1, true)
 	}
 }
 
